@@ -428,7 +428,6 @@ Qed.
 (* ================================================================== the split is exact *)
 Section Exact.
 Variables P C W : list N.
-Hypothesis HC : NoDup C.
 Hypothesis HW : NoDup W.
 Hypothesis Hsc : shift_consistent P C W = true.
 
@@ -672,12 +671,12 @@ Proof.
   unfold tail_only in Ht. fold fW in Ht.
   pose proof (take_drop fW C) as HCeq.
   assert (HS : filter fW C = take_while fW C).
-  { rewrite HCeq at 1. rewrite filter_app, filter_take_while, (filter_none _ _ Ht). apply app_nil_r. }
+  { rewrite HCeq at 1. rewrite filter_app, filter_take_while, (filter_none fW _ Ht). apply app_nil_r. }
   unfold same_order in Hso. apply str_eqb_eq in Hso. fold fW fC in Hso. rewrite HS in Hso.
   assert (HfCx : fC x = true) by (apply mem_In; exact HxC).
   (* x sits in S: split S around it *)
   assert (HxS : In x (take_while fW C)).
-  { rewrite <- Hso, HWeq. apply filter_In. split; [apply in_app_iff; right; now left|exact HfCx]. }
+  { rewrite Hso, HWeq. apply filter_In. split; [apply in_app_iff; right; now left|exact HfCx]. }
   apply in_split in HxS. destruct HxS as (S1 & S2 & HSeq).
   assert (HnS1 : ~ In x S1).
   { apply (NoDup_app_not_in S1 x (S2 ++ drop_while fW C)).
@@ -686,13 +685,13 @@ Proof.
   { intros H. apply filter_In in H. destruct H as [H _]. revert H.
     apply (NoDup_app_not_in W1 x W2). now rewrite <- HWeq. }
   assert (HS1 : filter fC W1 = S1).
-  { eapply filter_split_at; eauto. rewrite <- HWeq, Hso. exact HSeq. }
+  { eapply filter_split_at; eauto. rewrite <- HWeq, <- Hso. exact HSeq. }
   assert (Hidx : index_of x C = Some (1 + N.of_nat (length S1))).
   { unfold index_of. rewrite HCeq, HSeq, <- app_assoc, <- app_comm_cons. now apply index_from_app. }
   rewrite Hc in Hidx. inversion Hidx; subst c.
   assert (Hneg : filter (fun y => negb (negb (mem y C))) W1 = filter fC W1).
   { apply filter_ext. intros y. now rewrite negb_involutive. }
-  rewrite Hneg, HS1 in Hlen.
+  cbv beta in Hlen. rewrite Hneg, HS1 in Hlen.
   apply andb_true_iff. split; lia.
 Qed.
 
@@ -712,9 +711,9 @@ Lemma pure_from_all C : NoDup C -> forall Wr i run C1,
 Proof.
   intros HC. induction Wr as [|x t IH]; intros i run C1 Heq; cbn [pure_from pos_from filter] in *.
   - rewrite app_nil_r in Heq. subst C1. rewrite N.eqb_refl. now rewrite app_nil_r.
-  - destruct (mem x C) eqn:Hm; cbn [negb].
+  - destruct (mem x C) eqn:Hm; cbn [negb]; try rewrite Hm in Heq.
     + assert (Hidx : index_of x C = Some (1 + N.of_nat (length C1))).
-      { unfold index_of. rewrite Heq at 2. apply index_from_app.
+      { unfold index_of. rewrite Heq at 1. apply index_from_app.
         apply (NoDup_app_not_in C1 x (filter (fun y => mem y C) t)). now rewrite <- Heq. }
       rewrite Hidx.
       replace (1 + N.of_nat (length C1) =? N.of_nat (length C1) + 1) with true by lia.
@@ -743,6 +742,7 @@ Proof.
   unfold shift_consistent_struct. apply andb_true_iff. split.
   - unfold no_hidden. apply forallb_forall. intros w Hw. apply orb_true_iff. right.
     apply mem_In. unfold pure_ins.
+    change (pure_from C 1 0 [] W) with (pure_from C 1 (N.of_nat (length (@nil N))) [] W).
     rewrite (pure_from_all C HC W 1 [] []); [exact Hw|].
     cbn [app]. unfold same_order in Hso. apply str_eqb_eq in Hso.
     now rewrite <- Hso, filter_mem_all.
@@ -757,4 +757,134 @@ Theorem split_exact_insertions P C W attrs : NoDup C -> NoDup W -> same_order C 
     split_exact P C W attrs note ini.
 Proof.
   intros HC HW Hso Hall Hwf. apply split_exact_holds; auto. now apply insertions_sc.
+Qed.
+
+(* ================================================================== refutations *)
+(* a committed AI line of W that the note does not list for its author *)
+Definition lost_committed (P C W : list N) (attrs : list lattr)
+           (note : list (list N * list lrange)) : Prop :=
+  exists w x a c, at_pos W w x /\ claim attrs w a /\ a <> human /\ ~ In x P /\
+                  index_of x C = Some c /\ note_lists note a c = false.
+(* an AI line of W left out of the commit that INITIAL does not list for its author *)
+Definition forgotten_uncommitted (C W : list N) (attrs : list lattr) (ini : list lattr) : Prop :=
+  exists w x a, at_pos W w x /\ claim attrs w a /\ a <> human /\ ~ In x C /\
+                init_lists ini a w = false.
+
+Lemma lost_not_exact P C W attrs note ini :
+  lost_committed P C W attrs note -> ~ split_exact P C W attrs note ini.
+Proof.
+  intros (w & x & a & c & Hx & Hcl & Hh & HnP & Hc & Hn) (H & _).
+  destruct (H w x a Hx Hcl Hh) as [(_ & _ & (c' & Hc' & Hl) & _)|[(HnC & _)|(_ & HP & _)]].
+  - congruence.
+  - apply index_of_Some in Hc. tauto.
+  - tauto.
+Qed.
+
+Lemma forgotten_not_exact P C W attrs note ini :
+  forgotten_uncommitted C W attrs ini -> ~ split_exact P C W attrs note ini.
+Proof.
+  intros (w & x & a & Hx & Hcl & Hh & HnC & Hn) (H & _).
+  destruct (H w x a Hx Hcl Hh) as [(HC & _)|[(_ & Hl)|(HC & _)]]; [tauto|congruence|tauto].
+Qed.
+
+Definition s1 : list N := [115; 49].
+Definition ai (a b : N) : lattr := {| la_start := a; la_end := b; la_author := s1 |}.
+
+Definition refuted (P C W : list N) (attrs : list lattr) : Prop :=
+  wf3 P C W = true /\ attrs_wfb W attrs = true /\ Known_C04 P C W = true /\
+  exists note ini, run_spec P C W attrs = SOk note ini /\
+    (lost_committed P C W attrs note \/ forgotten_uncommitted C W attrs ini) /\
+    ~ split_exact P C W attrs note ini.
+
+Ltac solve_refuted_lost P C W attrs note w x c :=
+  split; [vm_compute; reflexivity|]; split; [vm_compute; reflexivity|];
+  split; [vm_compute; reflexivity|];
+  exists note, (@nil lattr); split; [vm_compute; reflexivity|];
+  assert (Hl : lost_committed P C W attrs note);
+  [ exists w, x, s1, c; split; [vm_compute; tauto|]; split; [vm_compute; tauto|];
+    split; [discriminate|]; split; [vm_compute; intuition discriminate|];
+    split; vm_compute; reflexivity
+  | split; [left; exact Hl | apply lost_not_exact; exact Hl] ].
+
+(* (a) P = [1], the AI appends line 2 and it is staged (C = [1;2]); line 1 is then deleted in
+   the work tree, unstaged (W = [2]).  Line 2 is committed AI work but the note omits it. *)
+Lemma deletion_refuted : refuted [1] [1; 2] [2] [ai 1 1].
+Proof. solve_refuted_lost [1] [1; 2] [2] [ai 1 1] (@nil (list N * list lrange)) 1 2 2. Qed.
+
+(* (b) as (a), but line 1 is modified 1:1 in the work tree (W = [3;2]; id 3 is the new text) *)
+Lemma modify_refuted : refuted [1] [1; 2] [3; 2] [ai 2 2].
+Proof. solve_refuted_lost [1] [1; 2] [3; 2] [ai 2 2] (@nil (list N * list lrange)) 2 2 2. Qed.
+
+(* (c) the staged AI line 2 is itself rewritten by an AI in the work tree (W = [1;3]):
+   the filter hides work-tree line 2, the note credits commit line 2 to the rewriting session,
+   and the rewritten line is not carried in INITIAL *)
+Lemma hidden_refuted : refuted [1] [1; 2] [1; 3] [ai 2 2].
+Proof.
+  split; [vm_compute; reflexivity|]. split; [vm_compute; reflexivity|].
+  split; [vm_compute; reflexivity|].
+  eexists; eexists. split; [vm_compute; reflexivity|].
+  assert (Hf : forgotten_uncommitted [1; 2] [1; 3] [ai 2 2] []).
+  { exists 2, 3, s1. split; [vm_compute; tauto|]. split; [vm_compute; tauto|].
+    split; [discriminate|]. split; [vm_compute; intuition discriminate|]. reflexivity. }
+  split; [right; exact Hf | apply forgotten_not_exact; exact Hf].
+Qed.
+
+(* ================================================================== non-vacuity *)
+(* P = [1;2;3].  The AI writes 12, 10, 11, 14, 13; the lines 10 and 14 are staged
+   (C = [1;2;10;14;3]); W = [1;12;2;10;11;14;3;13] keeps pure insertions above (12), inside (11)
+   and below (13) the committed AI lines. *)
+Definition nv_P : list N := [1; 2; 3].
+Definition nv_C : list N := [1; 2; 10; 14; 3].
+Definition nv_W : list N := [1; 12; 2; 10; 11; 14; 3; 13].
+Definition nv_attrs : list lattr := [ai 2 2; ai 4 6; ai 8 8].
+
+Lemma nonvacuous :
+  wf3 nv_P nv_C nv_W = true /\ attrs_wfb nv_W nv_attrs = true /\
+  shift_consistent nv_P nv_C nv_W = true /\
+  (committed nv_P nv_C, unstaged nv_C nv_W, pure_ins nv_C nv_W) = ([3; 4], [2; 5; 8], [2; 5; 8]) /\
+  run_spec nv_P nv_C nv_W nv_attrs
+  = SOk [(s1, [LRange 3 4])] [ai 2 2; ai 5 5; ai 8 8].
+Proof. vm_compute. repeat split. Qed.
+
+(* a case with a replaced tail: deletions below every kept line do not disturb the offsets *)
+Lemma nonvacuous_tail :
+  wf3 [1; 2] [1; 10; 2] [11; 1; 10; 12] = true /\
+  shift_consistent [1; 2] [1; 10; 2] [11; 1; 10; 12] = true /\
+  run_spec [1; 2] [1; 10; 2] [11; 1; 10; 12] [ai 1 1; ai 3 4]
+  = SOk [(s1, [LSingle 2])] [ai 1 1; ai 4 4].
+Proof. vm_compute. repeat split. Qed.
+
+(* the boolean reading of attrs_wf used by the check implies the Prop used by the theorem *)
+Lemma attrs_wfb_wf W attrs : attrs_wfb W attrs = true -> attrs_wf W attrs.
+Proof.
+  unfold attrs_wfb. intros H. apply andb_true_iff in H. destruct H as [Hb Hn].
+  rewrite forallb_forall in Hb. split.
+  - intros a w Hcl. specialize (Hb (a, w) Hcl). cbn [snd] in Hb.
+    apply enum_total; lia.
+  - intros a b w Ha Hb'. unfold claim in *.
+    assert (Hnd : NoDup (map snd (claims attrs))).
+    { clear - Hn. induction (map snd (claims attrs)) as [|y t IH]; [constructor|].
+      cbn [nodupb] in Hn. apply andb_true_iff in Hn. destruct Hn as [H1 H2].
+      constructor; auto. apply negb_true_iff, mem_false_In in H1. exact H1. }
+    clear - Ha Hb' Hnd. induction (claims attrs) as [|[a0 w0] t IH]; [destruct Ha|].
+    cbn [map snd] in Hnd. inversion Hnd as [|? ? Hnot Hnd']; subst.
+    destruct Ha as [Ha|Ha], Hb' as [Hb|Hb].
+    + congruence.
+    + inversion Ha; subst. exfalso. apply Hnot. apply in_map_iff. exists (b, w). auto.
+    + inversion Hb; subst. exfalso. apply Hnot. apply in_map_iff. exists (a, w). auto.
+    + auto.
+Qed.
+
+(* A consequence of split_exact that marks the limit of the split: the attributions describe W
+   only, so a line of the commit that the work tree no longer has (deleted or rewritten after
+   staging) is recorded for nobody -- even when an AI wrote it. *)
+Theorem unkept_line_unrecorded P C W attrs note ini :
+  split_exact P C W attrs note ini ->
+  forall c y, at_pos C c y -> ~ In y W -> forall a, note_lists note a c = false.
+Proof.
+  intros (_ & Hn & _) c y Hy HnW a. apply not_true_iff_false. intros H.
+  apply Hn in H. destruct H as (_ & w & x & Hx & _ & _ & _ & Hc).
+  apply index_of_Some in Hc. destruct Hc as [Hc _].
+  assert (x = y) by (eapply enum_fun; eauto). subst.
+  apply enum_bounds in Hx. tauto.
 Qed.
